@@ -113,6 +113,11 @@ class Terminologies(dict):
             print("Failed to load %s due to parser errors" % url)
             print(' "%s"' % exc)
             term = None
+        except (ValueError, IndexError) as exc:
+            # e.g. an included file is not available or lacks the included Section
+            print("Failed to load %s: unresolved include" % url)
+            print(' "%s"' % exc)
+            term = None
 
         with self._lock:
             # If another thread has loaded the same url in the meantime, keep
